@@ -25,7 +25,7 @@ def run(ctx):
     for k in range(core.NCPU):
         job = {"seed": ctx.seed * 3 + k, "name_blocks": blocks[k * per:(k + 1) * per],
                "hex3": [core.NCPU * (1 if not quick else 1), k],
-               "hex6_structured": (4000 if quick else 200000) // core.NCPU}
+               "hex6_structured": (4000 if quick else 200000) // core.NCPU, "texnames": 6 if quick else 60}
         if k == 0:
             job["hex6_channels"] = True
         jobs.append({"script": "d_names.py", "stdin_obj": job})
@@ -37,8 +37,9 @@ def run(ctx):
         rec = recs[idx]
         if not inv.startswith("C20_"):
             raise core.MachineryError("spec-side invariant %s failed" % inv)
-        what = ("i0=%d" % rec["i0"]) if rec["kind"] == "names" else ("code=%s" % "".join(map(chr, rec["code"])))
-        ctx.report("%s kind=%s" % (inv, rec["kind"]), what, {"record": rec if rec["kind"] == "hex" else {"kind": "names", "i0": rec["i0"], "n": len(rec["names"])}})
+        what = ("i0=%d" % rec["i0"]) if rec["kind"] == "names" else (("n=%d" % rec["n"]) if rec["kind"] == "texnames" else ("code=%s" % "".join(map(chr, rec["code"]))))
+        ctx.report("%s kind=%s" % (inv, rec["kind"]), what, {"record": rec if rec["kind"] != "names" else {"kind": "names", "i0": rec["i0"], "n": len(rec["names"])}})
+    ctx.extra["tikz_exports_with_macro_names_checked"] = sum(1 for r in recs if r["kind"] == "texnames")
     ctx.evaluations += sum(len(r["names"]) if r["kind"] == "names" else 1 for r in recs)
     ctx.nontrivial += sum(len(r["names"]) if r["kind"] == "names" else 0 for r in recs) + len({json.dumps(r["code"]) for r in recs if r["kind"] == "hex"})
     ctx.extra["names_checked"] = sum(len(r["names"]) for r in recs if r["kind"] == "names")
